@@ -1414,6 +1414,140 @@ async fn lowlevel_case(seed: u64) -> Out {
 	out
 }
 
+/// Directed family: the SERVER ends a WebSocket connection while a call on it is still in its handler - (a) the peer stops
+/// answering pings (pings enabled, the socket stays open) and the inactivity limit fires, (b) a server built on the
+/// low-level API drops the connection future `ws::connect` gave it. Either way the connection has ended: its slot is free
+/// again, whether or not the handler ever returns, and a new connection is admitted at the limit.
+///
+/// (a) runs in REAL time (the server measures inactivity with `std::time::Instant`): ping interval 40 ms, inactivity limit
+/// 120 ms, one failure; the peer is a `FrameWs` that never reads, so no ping is answered. The guard is polled until it shows
+/// the slot free; only a slot that is still taken 10 s after the limit counts as not returned.
+async fn server_closes_case(seed: u64, low_level: bool) -> Out {
+	let mut out = Out::default();
+	let mut r = Rng::new(seed);
+	let max = 1 + r.below(2) as usize;
+	let sh = Arc::new(Shared::default());
+	let mid_call = r.chance(2, 3);
+	macro_rules! bad {
+		($sig:expr, $($arg:tt)*) => { out.violations.push(($sig.to_string(), format!($($arg)*))) };
+	}
+	let occ = |g: &ConnectionGuard| g.max_connections().saturating_sub(g.available_connections());
+	let how = if low_level { "connection-future-dropped" } else { "peer-silent-past-the-inactivity-limit" };
+	let ping = jsonrpsee_server::PingConfig::new().ping_interval(Duration::from_millis(40)).inactive_limit(Duration::from_millis(120)).max_failures(1);
+	let cfg = ServerConfig::builder().max_connections(max as u32).enable_ws_ping(ping).build();
+	let mut low = jrv::lowlevel::LowLevel::new(ServerConfig::default(), module(sh.clone()));
+	low.guard = ConnectionGuard::new(max);
+	let srv = MemServer::new(cfg, module(sh.clone()));
+	let step = if low_level { 3 } else { 30 };
+	// fill the limit with sessions of a peer that reads only when asked to
+	let mut wss: Vec<jrv::memsrv::FrameWs> = Vec::new();
+	for k in 0..max {
+		out.attempts += 1;
+		let io = if low_level {
+			let (c, s) = tokio::io::duplex(1 << 20);
+			low.serve(s);
+			c
+		} else {
+			srv.raw_conn().0
+		};
+		match jrv::memsrv::FrameWs::connect(io, Duration::from_secs(5)).await {
+			Ok(ws) => wss.push(ws),
+			Err(e) => {
+				bad!("refused-with-free-slot/ws-open", "{k} of {max} slots in use: {e}");
+				return out;
+			}
+		}
+		out.admitted += 1;
+	}
+	// a probe publishes the guard
+	wss[0].send_frame(true, 1, json!({"jsonrpc": "2.0", "id": 0, "method": "probe"}).to_string().as_bytes()).await;
+	settle(step).await;
+	let Some(guard) = (if low_level { Some(low.guard.clone()) } else { sh.guard.lock().unwrap().clone() }) else {
+		bad!("setup-failed/no-guard", "the probe did not publish the connection guard");
+		return out;
+	};
+	out.occupancy_checks += 1;
+	if occ(&guard) != max {
+		// (real time: a peer that was already given up for inactivity during the setup is not the scenario)
+		out.history.push(format!("{how} setup-not-reached occupancy={} max={max}", occ(&guard)));
+		return out;
+	}
+	let mut tags = Vec::new();
+	if mid_call {
+		for (k, ws) in wss.iter_mut().enumerate() {
+			let tag = format!("sc{k}");
+			ws.send_frame(true, 1, json!({"jsonrpc": "2.0", "id": 1, "method": "hold", "params": [tag]}).to_string().as_bytes()).await;
+			tags.push(tag);
+		}
+		settle(step).await;
+		if tags.iter().any(|t| !sh.started.lock().unwrap().contains(t)) {
+			out.history.push(format!("{how} setup-not-reached held-calls-not-started"));
+			return out;
+		}
+	}
+	// the server ends the connections
+	let mut during = max;
+	if low_level {
+		low.drop_ws_sessions();
+		settle(20).await;
+		during = occ(&guard);
+	} else {
+		let t0 = std::time::Instant::now();
+		while t0.elapsed() < Duration::from_secs(10) {
+			during = occ(&guard);
+			if during == 0 {
+				break;
+			}
+			tokio::time::sleep(Duration::from_millis(20)).await;
+		}
+	}
+	out.endings += max;
+	out.occupancy_checks += 1;
+	if during != 0 {
+		bad!(
+			format!("occupancy-wrong/slot-not-returned/after-{how}{}", if mid_call { "-mid-call" } else { "" }),
+			"the server ended {max} WebSocket connection(s) ({how}{}), the guard still shows {during} of {max} in use{}",
+			if mid_call { ", a call still in its handler on each" } else { "" },
+			if low_level { "" } else { " 10 s later" }
+		);
+	}
+	// a newcomer is admitted
+	out.attempts += 1;
+	let io = if low_level {
+		let (c, s) = tokio::io::duplex(1 << 20);
+		low.serve(s);
+		c
+	} else {
+		srv.raw_conn().0
+	};
+	match jrv::memsrv::FrameWs::connect(io, Duration::from_secs(5)).await {
+		Ok(ws) => {
+			out.admitted += 1;
+			drop(ws);
+		}
+		Err(e) => {
+			if during == 0 {
+				bad!(format!("refused-with-free-slot/ws-open/after-{how}"), "{e}");
+			}
+		}
+	}
+	// the handlers return at last; nothing is left
+	for t in &tags {
+		if let Some(g) = sh.gates.lock().unwrap().get(t).cloned() {
+			g.notify_one();
+		}
+	}
+	drop(wss);
+	settle(if low_level { 200 } else { 300 }).await;
+	out.occupancy_checks += 1;
+	if occ(&guard) != 0 && during == 0 && low_level {
+		bad!(format!("occupancy-wrong/slot-not-returned/at-the-end-after-{how}"), "everything has ended, the guard shows {} of {max} in use", occ(&guard));
+	}
+	out.max_served = max;
+	out.history.push(format!("{how} mid_call={mid_call} max={max}"));
+	out
+}
+
 fn record(spec: &Spec, o: Out, class: &str, ev: &mut Evidence, violations: &mut Vec<Violation>) {
 	ev.eval();
 	ev.count("attempts", o.attempts as u64);
@@ -1466,9 +1600,13 @@ fn main() {
 	let replay = ctx.replay.is_some();
 	let mut specs: Vec<(Spec, &'static str)> = Vec::new();
 	let mut tspecs: Vec<(TSpec, &'static str)> = Vec::new();
+	let mut replay_family: Option<String> = None;
+	let mut replay_seed: Option<u64> = None;
 	if let Some(path) = &ctx.replay {
 		let w: Value = serde_json::from_str(&std::fs::read_to_string(path).expect("replay")).expect("json");
-		let class = w["witness"]["class"].as_str().unwrap_or("seeded").to_string();
+		replay_family = w["witness"]["family"].as_str().map(|s| s.to_string());
+		replay_seed = w["witness"]["seed"].as_u64();
+		let class = if replay_family.is_some() { "family".to_string() } else { w["witness"]["class"].as_str().unwrap_or("seeded").to_string() };
 		let n = w["witness"]["n_ops"].as_u64().unwrap_or(0) as usize;
 		let max = w["witness"]["max_connections"].as_u64().unwrap_or(1) as u32;
 		if class.starts_with("tcp") {
@@ -1486,6 +1624,7 @@ fn main() {
 		}
 		let all: Vec<Spec> = match class.as_str() {
 			c if c.starts_with("tcp") => vec![],
+			"family" => vec![],
 			"seeded" => vec![gen_spec(w["witness"]["seed"].as_u64().unwrap_or(0))],
 			"exhaustive" => exhaustive_specs(4),
 			_ => cycle_specs(100).into_iter().chain(cycle_specs(500)).collect(),
@@ -1551,6 +1690,50 @@ fn main() {
 			}
 			for (sig, d) in o.violations {
 				violations.push(Violation::new(sig, d, json!({"family": "low-level assembly", "case": i})));
+			}
+		}
+	}
+	if !replay || replay_family.as_deref() == Some("server closes the connection") {
+		let seeds: Vec<u64> = match (replay, replay_seed) {
+			(true, Some(s)) => vec![s],
+			_ => (0..ctx.tier.pick(200u64, 10_000)).map(|i| Rng::fork(ctx.seed ^ 0x5c10, i).next_u64()).collect(),
+		};
+		// (a) in real time on one multi-thread runtime, 16 cases at a time; (b) in virtual time
+		let (real, virt): (Vec<u64>, Vec<u64>) = seeds.into_iter().partition(|s| s % 2 == 0);
+		let mut res: Vec<(u64, Out)> = run_parallel(virt, |_, s| (s, block_on_virtual(server_closes_case(s, true))));
+		res.extend(block_on_stress(8, async {
+			let mut all = Vec::new();
+			for chunk in real.chunks(16) {
+				let hs: Vec<_> = chunk.iter().map(|s| { let s = *s; tokio::spawn(async move { (s, server_closes_case(s, false).await) }) }).collect();
+				for h in hs {
+					if let Ok(x) = h.await {
+						all.push(x);
+					}
+				}
+			}
+			all
+		}));
+		for (s, o) in res {
+			ev.eval();
+			ev.count("server_closes_cases", 1);
+			ev.count("occupancy_checks", o.occupancy_checks as u64);
+			for h in &o.history {
+				let mut parts = h.split(' ');
+				let how = parts.next().unwrap_or("");
+				if parts.next() == Some("setup-not-reached") {
+					ev.count(&format!("server_closes_{how}_setup_not_reached"), 1);
+				} else {
+					ev.count(&format!("server_closes_{how}"), 1);
+				}
+			}
+			if o.endings > 0 && o.violations.is_empty() {
+				ev.nontrivial(&("server-closes", s));
+			}
+			if replay {
+				println!("history: {:?} violations: {:?}", o.history, o.violations);
+			}
+			for (sig, d) in o.violations {
+				violations.push(Violation::new(sig, d, json!({"family": "server closes the connection", "seed": s})));
 			}
 		}
 	}
